@@ -111,7 +111,7 @@ theorem solve_returns (a : Alg S) (g : Nat) : ∀ (j : Nat) (c : Ctl) (s : S) (k
       rw [C05.pre_maxiter_val c g hlim]
       simp [Lim.reached]; omega
     have h0 := C05.no_step_when_stopped c (a.term s c.pre)
-      (a.term (a.step s k) (c.after { dEvals := a.nlog (a.step s k) - a.nlog s, dGens := if c.nstep = 0 then 0 else 1 })) { dEvals := a.nlog (a.step s k) - a.nlog s, dGens := if c.nstep = 0 then 0 else 1 } hn hstop
+      (a.term (a.step s k) (c.after { dEvals := a.nlog (a.step s k) - a.nlog s, dGens := if c.nstep = 0 then 0 else 1, dStep := a.nrec (a.step s k) - a.nrec s })) { dEvals := a.nlog (a.step s k) - a.nlog s, dGens := if c.nstep = 0 then 0 else 1, dStep := a.nrec (a.step s k) - a.nrec s } hn hstop
     unfold solve
     simp only
     have hmsg : (stepOnce a c s k).2.2.1.isSome = true := by
@@ -129,12 +129,12 @@ theorem solve_returns (a : Alg S) (g : Nat) : ∀ (j : Nat) (c : Ctl) (s : S) (k
       simp only
       -- no message: the iteration ran and the state is `c.after d`
       have hsc := C05.step_cases c (a.term s c.pre)
-        (a.term (a.step s k) (c.after { dEvals := a.nlog (a.step s k) - a.nlog s, dGens := if c.nstep = 0 then 0 else 1 })) { dEvals := a.nlog (a.step s k) - a.nlog s, dGens := if c.nstep = 0 then 0 else 1 }
-      have hm' : (c.step (a.term s c.pre) (a.term (a.step s k) (c.after { dEvals := a.nlog (a.step s k) - a.nlog s, dGens := if c.nstep = 0 then 0 else 1 }))
-          { dEvals := a.nlog (a.step s k) - a.nlog s, dGens := if c.nstep = 0 then 0 else 1 }).2.1 = none := by
+        (a.term (a.step s k) (c.after { dEvals := a.nlog (a.step s k) - a.nlog s, dGens := if c.nstep = 0 then 0 else 1, dStep := a.nrec (a.step s k) - a.nrec s })) { dEvals := a.nlog (a.step s k) - a.nlog s, dGens := if c.nstep = 0 then 0 else 1, dStep := a.nrec (a.step s k) - a.nrec s }
+      have hm' : (c.step (a.term s c.pre) (a.term (a.step s k) (c.after { dEvals := a.nlog (a.step s k) - a.nlog s, dGens := if c.nstep = 0 then 0 else 1, dStep := a.nrec (a.step s k) - a.nrec s }))
+          { dEvals := a.nlog (a.step s k) - a.nlog s, dGens := if c.nstep = 0 then 0 else 1, dStep := a.nrec (a.step s k) - a.nrec s }).2.1 = none := by
         unfold stepOnce at hm; simpa using hm
-      have hc1 : (stepOnce a c s k).1 = (c.step (a.term s c.pre) (a.term (a.step s k) (c.after { dEvals := a.nlog (a.step s k) - a.nlog s, dGens := if c.nstep = 0 then 0 else 1 }))
-          { dEvals := a.nlog (a.step s k) - a.nlog s, dGens := if c.nstep = 0 then 0 else 1 }).1 := by
+      have hc1 : (stepOnce a c s k).1 = (c.step (a.term s c.pre) (a.term (a.step s k) (c.after { dEvals := a.nlog (a.step s k) - a.nlog s, dGens := if c.nstep = 0 then 0 else 1, dStep := a.nrec (a.step s k) - a.nrec s }))
+          { dEvals := a.nlog (a.step s k) - a.nlog s, dGens := if c.nstep = 0 then 0 else 1, dStep := a.nrec (a.step s k) - a.nrec s }).1 := by
         unfold stepOnce; rfl
       rcases hsc with ⟨m', _, h1⟩ | ⟨_, m', hmm, h1⟩ | ⟨_, _, h1⟩
       · rw [h1] at hm'; cases hm'
@@ -147,7 +147,7 @@ theorem solve_returns (a : Alg S) (g : Nat) : ∀ (j : Nat) (c : Ctl) (s : S) (k
         apply ih
         · exact C05.after_maxiter_val c _ g hlim
         · simpa using hp
-        · simp
+        · simp; intro h0; exact absurd h0 hn
         · rw [C05.after_gens c _ hp]; simp only [if_neg hn]; omega
 
 /-! ### differential evolution: the closed loop ends in a state of the open loop `DE.run` -/
